@@ -23,7 +23,11 @@ Functions under contract (all obligations generated from the source in the tree 
                                         whenever sum(p) != 0, n_min = smallest size, order over the concatenation in list order, jointly smallest;
                                         (b) python lists of CONCRETE length 2 and 3 (loop unrolled natively): the same clauses plus every division
                                         obligation: non-empty samples, n_sim >= 1, positive prior weights => sum(p) > 0, 0 <= probability <= 1.
-  ghost lemmas (lemmas/c17_lemmas.py): extensionality / linearity / monotonicity of prefix sums, the sign convention cancels, counts do not
+    adjust_posterior x 2                two calls of the real pipeline on (S, s_obs) and on (S A + 1 c^T, s_obs A + c), ONE summary: every regression is
+                                        ordinary least squares with an intercept; under full column rank of [1, X_finite] and an unchanged finite-row filter the
+                                        adjusted values of the two calls are equal row by row (AffineReexpression; LinearRegression by its normal equations)
+  ghost lemmas (lemmas/c17_lemmas.py): Gram sums of [1, XA] = T^T G T (induction over rows), uniqueness of the normal-equation solution (Cramer),
+  row identity x'.b' = x.b, equal masks select equal rows (induction), extensionality / linearity / monotonicity of prefix sums, the sign convention cancels, counts do not
   depend on the list order when there is no tie at the cut (pigeonhole instances), and two calls of the REAL compare_models on a permuted
   model list give permuted probabilities (2-lists: the swap; 3-lists: both adjacent transpositions, which generate every order).
 
@@ -39,10 +43,13 @@ MANIFEST = {
             'formulas of the property for all array lengths and contents over the reals; obligations are generated from the current source and '
             'discharged by z3/cvc5.  Permutation covariance is a two-call lemma on the real compare_models (no tie at the cut).  sklearn '
             'LinearRegression is an assumed library (recording stub; least-squares slope sanity-tested against numpy.linalg.lstsq each run).  '
+            'Invariance under an invertible affine re-expression of the summaries is proved for one summary as a two-call lemma on the real adjust_posterior '
+            '(normal equations as the assumed sklearn contract; uniqueness from full column rank, Gram sums under X -> XA by induction over the rows, equal masks '
+            'select equal rows by induction), together with the clause that every regression is constructed as ordinary least squares with an intercept.  '
             'Bounded stand-in on the real code: adjust_posterior against numpy.linalg.lstsq with non-finite entries, zero rows, affine '
             're-expressions and re-used adjustment objects; compare_models against an independent tie-aware recomputation.',
-    'note': 'Not decided by proof: invariance under an invertible affine re-expression of the summaries (a property of OLS with intercept, i.e. of the '
-            'assumed sklearn contract; checked in the bounded stand-in only).  Floats idealised as reals; lists of summary / parameter names have '
+    'note': 'Not decided by proof: invariance under an invertible affine re-expression for two or more summaries (bounded stand-in only; the one-summary proof '
+            'assumes full column rank of [1, X_finite] and an unchanged finite-row filter).  Floats idealised as reals; lists of summary / parameter names have '
             'concrete lengths (1-3); division obligations and permutation covariance are proved for model lists of length 2 and 3 (all other '
             'compare_models clauses for any length); with ties at the cut the result is not a function of the multiset (stated; counted in the bounded stand-in).',
     'technique': 'deductive: VCs from the real AST executed over symbolic arrays (pyvc), loop invariant with ghost state, ghost lemma functions, z3/cvc5; '
@@ -1952,13 +1959,460 @@ class CompareModelsAnyM(Contract):
         return dict(function='compare_models', M='symbolic')
 
 
+# ---------------------------------------------------------------- invariance under an invertible affine re-expression of the summaries
+# Assumed library contract used here (and only here): LinearRegression() / LinearRegression(fit_intercept=True).fit(X, y) sets (intercept_, coef_)
+# to A solution of the normal equations of y on [1, X] (residual orthogonal to every column of [1, X]); such a solution always exists.
+# Nothing else is assumed: uniqueness is PROVED from full column rank (Gram determinant != 0, Cramer), the transformation of the Gram sums
+# under X -> X A by induction over the rows (LemmaGramTransform), and that equal masks select equal rows by induction (LemmaSelectUnique).
+def _rsum(xs):
+    xs = [x for x in xs if x is not None]
+    if not xs:
+        return z3.RealVal(0)
+    r = xs[0]
+    for x in xs[1:]:
+        r = r + x
+    return r
+
+
+def _rmul(*fs):
+    """product with python 0 / 1 entries folded (block structure of T = diag(1, A))"""
+    out = None
+    for f in fs:
+        if isinstance(f, int):
+            if f == 0:
+                return None
+            continue
+        out = f if out is None else out * f
+    return z3.RealVal(1) if out is None else out
+
+
+def aug(Amat):
+    """T = diag(1, A): the map on the augmented columns [1, x] -> [1, x A]"""
+    d = len(Amat) + 1
+    return [[(1 if u == a else 0) if (u == 0 or a == 0) else Amat[u - 1][a - 1] for a in range(d)] for u in range(d)]
+
+
+class Gram:
+    """prefix sums over the rows of the products of the augmented columns z_0 = 1, z_c+1 = x_c: GS[a,b](j) = sum_{i<j} z_a(i) z_b(i) (a <= b),
+    YS[a](j) = sum_{i<j} z_a(i) y(i); by their recursion equations"""
+
+    def __init__(self, d, mk):
+        self.d = d
+        self.GS = {(a, b): mk('GS%d%d' % (a, b)) for a in range(d) for b in range(a, d)}
+        self.YS = [mk('YS%d' % a) for a in range(d)]
+
+    def g(self, a, b):
+        return self.GS[(_bi.min(a, b), _bi.max(a, b))]
+
+    def defs(self, k, z, y):
+        return z3.And([prefix_def(self.GS[(a, b)], k, lambda j, a=a, b=b: z[a](j) * z[b](j)) for (a, b) in self.GS] +
+                      [prefix_def(self.YS[a], k, lambda j, a=a: z[a](j) * y(j)) for a in range(self.d)])
+
+    def inst(self, j, z, y):
+        return z3.And([self.GS[(a, b)](j + 1) == self.GS[(a, b)](j) + z[a](j) * z[b](j) for (a, b) in self.GS] +
+                      [self.YS[a](j + 1) == self.YS[a](j) + z[a](j) * y(j) for a in range(self.d)])
+
+    def at(self, k):
+        d = self.d
+        return [[self.g(a, b)(k) for b in range(d)] for a in range(d)], [self.YS[a](k) for a in range(d)]
+
+
+def normal_eqs(G, Y, beta):
+    """[1, X]^T [1, X] beta = [1, X]^T y   (G, Y: the Gram sums over all fitted rows; beta = (intercept, slope_0, ...))"""
+    d = len(Y)
+    return z3.And([_rsum(G[a][b] * beta[b] for b in range(d)) == Y[a] for a in range(d)])
+
+
+def det_of(M):
+    d = len(M)
+    if d == 1:
+        return M[0][0]
+    return _rsum((M[0][c] if c % 2 == 0 else -M[0][c]) * det_of([row[:c] + row[c + 1:] for row in M[1:]]) for c in range(d))
+
+
+def gram_transformed(T, G, Y):
+    d = len(Y)
+    Gt = [[_rsum(_rmul(T[u][a], T[v][b], G[u][v]) for u in range(d) for v in range(d)) for b in range(d)] for a in range(d)]
+    Yt = [_rsum(_rmul(T[u][a], Y[u]) for u in range(d)) for a in range(d)]
+    return Gt, Yt
+
+
+def stmt_gram_transform(k, z, zp, y, yp, T, g, gp, at=None):
+    """same responses (yp = y), rows re-expressed by T (zp_a(j) = sum_u z_u(j) T[u][a]): the Gram sums transform as T^T G T and T^T Y   (proved: LemmaGramTransform)"""
+    d = g.d
+    hyp = z3.And(k >= 0, g.defs(k, z, y), gp.defs(k, zp, yp),
+                 forall_range(0, k, lambda j: z3.And([yp(j) == y(j)] + [zp[a](j) == _rsum(_rmul(T[u][a], z[u](j)) for u in range(d)) for a in range(d)]), 'j'))
+    at = k if at is None else at
+    (G, Y), (Gp, Yp) = g.at(at), gp.at(at)
+    Gt, Yt = gram_transformed(T, G, Y)
+    goal = z3.And([Gp[a][b] == Gt[a][b] for a in range(d) for b in range(a, d)] + [Yp[a] == Yt[a] for a in range(d)])
+    return hyp, goal
+
+
+class LemmaGramTransform(Contract):
+    """induction over the rows: if every row of [1, X'] is the row of [1, X] times T = diag(1, A), the Gram sums of [1, X'] are T^T G T and T^T Y"""
+    target = '@verif/lemmas/c17_lemmas.py::lemma_gram_transform'
+    prop = 'C17'
+    fin = 4
+
+    def __init__(self, m):
+        self.m = m
+        self.label = '%d-summaries' % m
+
+    def setup(self, vc):
+        m, d = self.m, self.m + 1
+        k = z3.Int('k')
+        vc.fin_bounds.append(k)
+        x = [z3.Function('x%d' % c, I, R) for c in range(m)]
+        xp = [z3.Function('xp%d' % c, I, R) for c in range(m)]
+        y, yp = z3.Function('y', I, R), z3.Function('yp', I, R)
+        A = [[z3.Real('A%d%d' % (u, c)) for c in range(m)] for u in range(m)]
+        one = lambda j: z3.RealVal(1)
+        s = NS(k=k, z=[one] + [(lambda j, f=f: f(j)) for f in x], zp=[one] + [(lambda j, f=f: f(j)) for f in xp], y=lambda j: y(j), yp=lambda j: yp(j), T=aug(A),
+               g=Gram(d, lambda nm: z3.Function(nm, I, R)), gp=Gram(d, lambda nm: z3.Function(nm + 'p', I, R)))
+        s.hyp, s.goal = stmt_gram_transform(k, s.z, s.zp, s.y, s.yp, s.T, s.g, s.gp)
+        vc._s = s
+        return s, (SInt(k),), {}
+
+    def env(self, vc):
+        s = vc._s
+
+        def inst(j):
+            j = T(j)
+            d = s.g.d
+            vc.assume(z3.Implies(z3.And(0 <= j, j < s.k),
+                                 z3.And(s.g.inst(j, s.z, s.y), s.gp.inst(j, s.zp, s.yp), s.yp(j) == s.y(j),
+                                        z3.And([s.zp[a](j) == _rsum(_rmul(s.T[u][a], s.z[u](j)) for u in range(d)) for a in range(d)]))))
+        return dict(inst=inst)
+
+    def requires(self, s):
+        return [s.hyp]
+
+    @property
+    def loops(self):
+        return {0: Loop(inv=lambda s, l: [z3.And(0 <= T(l.j), T(l.j) <= s.k), stmt_gram_transform(s.k, s.z, s.zp, s.y, s.yp, s.T, s.g, s.gp, at=T(l.j))[1]])}
+
+    def ensures(self, s, result):
+        return [("G' = T^T G T and Y' = T^T Y", s.goal)]
+
+
+def stmt_affine_ols(G, Y, Gp, Yp, Tm, Ti, beta, betap):
+    """(a, b) solves the normal equations of y on [1, X], (a', b') those of y on [1, X'] with Gram sums G' = T^T G T, Y' = T^T Y, T = diag(1, A),
+    A invertible, det G != 0 (full column rank of [1, X])  =>  a' = a and A b' = b   (proved: LemmaAffineOLS)"""
+    d = len(Y)
+    Gt, Yt = gram_transformed(Tm, G, Y)
+    hyp = z3.And([normal_eqs(G, Y, beta), normal_eqs(Gp, Yp, betap)] +
+                 [Gp[a][b] == Gt[a][b] for a in range(d) for b in range(d)] + [Yp[a] == Yt[a] for a in range(d)] +
+                 [_rsum(_rmul(Tm[u][a], Ti[a][w]) for a in range(d)) == (1 if u == w else 0) for u in range(1, d) for w in range(1, d)] +
+                 [_rsum(_rmul(Ti[u][a], Tm[a][w]) for a in range(d)) == (1 if u == w else 0) for u in range(1, d) for w in range(1, d)] +
+                 [det_of(G) != 0])
+    goal = z3.And([beta[u] == _rsum(_rmul(Tm[u][a], betap[a]) for a in range(d)) for u in range(d)])
+    return hyp, goal
+
+
+def stmt_row_product(x, xp, Amat, b, bp):
+    """x' = x A (row vector), b = A b'  =>  x' . b' = x . b   (proved: LemmaAffineOLS row-product)"""
+    m = len(x)
+    hyp = z3.And([xp[c] == _rsum(x[u] * Amat[u][c] for u in range(m)) for c in range(m)] + [b[u] == _rsum(Amat[u][c] * bp[c] for c in range(m)) for u in range(m)])
+    return hyp, _rsum(xp[c] * bp[c] for c in range(m)) == _rsum(x[u] * b[u] for u in range(m))
+
+
+class LemmaAffineOLS(Contract):
+    """real algebra in isolation (no quantifier, no program term): uniqueness of the solution of the normal equations under full column rank,
+    and the witness A^-1 b for the re-expressed regressors; and the row identity x' . b' = x . b"""
+    target = '@verif/lemmas/c17_lemmas.py::lemma_field'
+    prop = 'C17'
+    fin = 4
+
+    def __init__(self, m, which):
+        self.m, self.which = m, which
+        self.label = '%s,%d-summaries' % (which, m)
+
+    def setup(self, vc):
+        m, d = self.m, self.m + 1
+        A = [[z3.Real('A%d%d' % (u, c)) for c in range(m)] for u in range(m)]
+        if self.which == 'row-product':
+            Rs = lambda nm: [z3.Real('%s%d' % (nm, c)) for c in range(m)]
+            hyp, goal = stmt_row_product(Rs('x'), Rs('xp'), A, Rs('b'), Rs('bp'))
+            return NS(hyp=hyp, goal=goal), (), {}
+        Ai = [[z3.Real('Ai%d%d' % (u, c)) for c in range(m)] for u in range(m)]
+
+        def sym(nm):
+            M = [[None] * d for _ in range(d)]
+            for u in range(d):
+                for v in range(u, d):
+                    M[u][v] = M[v][u] = z3.Real('%s%d%d' % (nm, u, v))
+            return M
+        Rs = lambda nm: [z3.Real('%s%d' % (nm, c)) for c in range(d)]
+        hyp, goal = stmt_affine_ols(sym('G'), Rs('Y'), sym('Gp'), Rs('Yp'), aug(A), aug(Ai), Rs('beta'), Rs('betap'))
+        return NS(hyp=hyp, goal=goal), (), {}
+
+    def requires(self, s):
+        return [s.hyp]
+
+    def ensures(self, s, result):
+        return [(self.which, s.goal)]
+
+
+def stmt_select_unique(n, m1, m2, k1, sel1, rank1, k2, sel2, rank2, upto=None):
+    """two boolean masks with the same contents select the same rows: the order-preserving enumeration of the True entries is unique
+    (proved: LemmaSelectUnique, induction over the selected rows)"""
+    def enum(mk, k, sel, rank):
+        return z3.And(k >= 0, k <= n,
+                      forall_range(0, k, lambda j: z3.And(0 <= sel(j), sel(j) < n, mk(sel(j)), rank(sel(j)) == j), 'j'),
+                      forall_range(0, n, lambda i: z3.Implies(mk(i), z3.And(0 <= rank(i), rank(i) < k, sel(rank(i)) == i)), 'i'),
+                      forall_range(0, k, lambda j: forall_range(0, j, lambda i: sel(i) < sel(j), 'i'), 'j'))
+    hyp = z3.And(n >= 0, enum(m1, k1, sel1, rank1), enum(m2, k2, sel2, rank2), forall_range(0, n, lambda i: m1(i) == m2(i), 'i'))
+    if upto is not None:
+        return hyp, z3.And(upto <= k2, forall_range(0, upto, lambda j: sel1(j) == sel2(j), 'j'))
+    return hyp, z3.And(k1 == k2, forall_range(0, k1, lambda j: sel1(j) == sel2(j), 'j'))
+
+
+class LemmaSelectUnique(Contract):
+    """numpy boolean-mask selection is a function of the mask's CONTENTS: derived from the enumeration axioms of the library spec, not assumed"""
+    target = '@verif/lemmas/c17_lemmas.py::lemma_select_unique'
+    prop = 'C17'
+    fin = 4
+
+    def setup(self, vc):
+        n, k1, k2 = z3.Ints('n k1 k2')
+        vc.fin_bounds.extend([n, k1, k2])
+        fI, fB = (lambda nm: z3.Function(nm, I, I)), (lambda nm: z3.Function(nm, I, B))
+        s = NS(n=n, k1=k1, k2=k2, m1=fB('m1'), m2=fB('m2'), sel1=fI('sel1'), rank1=fI('rank1'), sel2=fI('sel2'), rank2=fI('rank2'))
+        s.args = (n, s.m1, s.m2, k1, s.sel1, s.rank1, k2, s.sel2, s.rank2)
+        s.hyp, s.goal = stmt_select_unique(*s.args)
+        vc._s = s
+        return s, (SInt(k1),), {}
+
+    def env(self, vc):
+        s = vc._s
+        n = s.n
+
+        def facts(mk, k, sel, rank, j=None, i=None, pair=None):
+            out = []
+            if j is not None:
+                out.append(z3.Implies(z3.And(0 <= j, j < k), z3.And(0 <= sel(j), sel(j) < n, mk(sel(j)), rank(sel(j)) == j)))
+            if i is not None:
+                out.append(z3.Implies(z3.And(0 <= i, i < n, mk(i)), z3.And(0 <= rank(i), rank(i) < k, sel(rank(i)) == i)))
+            if pair is not None:
+                a, b_ = pair
+                out.append(z3.Implies(z3.And(0 <= a, a < b_, b_ < k), sel(a) < sel(b_)))
+            return out
+
+        def inst(j):
+            """instances (of the quantified hypotheses) that the induction step at row j needs"""
+            j = T(j)
+            r = s.sel1(j)
+            t = s.rank2(r)
+            r2 = s.sel2(j)
+            u = s.rank1(r2)
+            F = facts(s.m1, s.k1, s.sel1, s.rank1, j=j) + [z3.Implies(z3.And(0 <= r, r < n), s.m1(r) == s.m2(r))] + facts(s.m2, s.k2, s.sel2, s.rank2, i=r) + \
+                facts(s.m2, s.k2, s.sel2, s.rank2, j=t) + facts(s.m1, s.k1, s.sel1, s.rank1, pair=(t, j)) + facts(s.m2, s.k2, s.sel2, s.rank2, pair=(j, t)) + \
+                facts(s.m2, s.k2, s.sel2, s.rank2, j=j) + [z3.Implies(z3.And(0 <= r2, r2 < n), s.m1(r2) == s.m2(r2))] + facts(s.m1, s.k1, s.sel1, s.rank1, i=r2) + \
+                facts(s.m1, s.k1, s.sel1, s.rank1, j=u) + facts(s.m1, s.k1, s.sel1, s.rank1, pair=(u, j)) + facts(s.m1, s.k1, s.sel1, s.rank1, pair=(j, u)) + \
+                facts(s.m2, s.k2, s.sel2, s.rank2, pair=(u, j))
+            vc.assume(*F)
+        return dict(inst=inst)
+
+    def requires(self, s):
+        return [s.hyp]
+
+    @property
+    def loops(self):
+        return {0: Loop(inv=lambda s, l: [z3.And(0 <= T(l.j), T(l.j) <= s.k1), stmt_select_unique(*s.args, upto=T(l.j))[1]])}
+
+    def ensures(self, s, result):
+        return [('k1 = k2 and sel1 = sel2 on [0, k1)', s.goal)]
+
+
+PLAIN_OLS_KW = {'fit_intercept': (True,), 'copy_X': (True, False), 'n_jobs': (None, 1), 'positive': (False,)}
+
+
+def ols_model_class(vc, log):
+    """sklearn LinearRegression by its ASSUMED contract: constructed with arguments that leave the estimator ordinary least squares with an
+    intercept, fit(X, y) returns self and sets (intercept_, coef_) to a solution of the normal equations of y on [1, X] over the fitted rows.
+    Constructed with anything else (fit_intercept=False, positive=True, unknown arguments) NOTHING is known about coef_ and `plain` is False."""
+    class OLS:
+        def __init__(self_, *a, **kw):
+            self_.kw, self_.fits = kw, []
+            self_.plain = not a and _bi.all(k in PLAIN_OLS_KW and _bi.any(v is w or (isinstance(v, bool) == isinstance(w, bool) and v == w) for w in PLAIN_OLS_KW[k])
+                                            for k, v in kw.items())
+            log.append(self_)
+
+        def fit(self_, X, y):
+            X, y = X.snapshot(), y.snapshot()
+            self_.fits.append((X, y))
+            m = conc(X.shape[1])
+            if m is None or X.ndim != 2 or y.ndim != 1:
+                raise OutOfSubset('regression on a matrix with a symbolic number of columns')
+            self_.bf = vc.fresh_fn('coef', I, R)
+            self_.icpt = vc.fresh('intercept', R)
+            self_.coef_ = SArr.from_fn(lambda c: self_.bf(c), (X.shape[1],), 'real')
+            self_.intercept_ = SReal(self_.icpt)
+            self_.k = X.shape[0]
+            self_.z = [lambda j: z3.RealVal(1)] + [(lambda j, c=c: X.at(j, c)) for c in range(m)]
+            self_.y = lambda j: y.at(j)
+            self_.beta = [self_.icpt] + [self_.bf(c) for c in range(m)]
+            if self_.plain:
+                self_.gram = Gram(m + 1, lambda nm: vc.fresh_fn(nm, I, R))
+                vc.assume(self_.gram.defs(self_.k, self_.z, self_.y))              # definitional: the Gram sums by their recursion equations
+                G, Y = self_.gram.at(self_.k)
+                vc.assume(normal_eqs(G, Y, self_.beta))                          # ASSUMED library contract: the normal equations hold
+            return self_
+    return OLS
+
+
+class AffineReexpression(Contract):
+    """two calls of the REAL adjust_posterior (classes assembled from the real method bodies): on (S, s_obs) and on the re-expressed summaries
+    (S A + 1 c^T, s_obs A + c), A invertible.  If a row of the re-expressed differences is finite exactly when the original row is, and
+    [1, X_finite] has full column rank, every adjusted value is the same."""
+    target = '@verif/lemmas/c17_lemmas.py::lemma_affine_reexpression'
+    prop = 'C17'
+    fin = 3
+
+    def __init__(self, m):
+        self.m = m
+        self.label = '%d-summaries' % m
+
+    def setup(self, vc):
+        m = self.m
+        n, j0 = z3.Ints('n row')
+        vc.fin_bounds.extend([n, j0])
+        s = NS(n=n, m=m, j0=j0, models=[], created=[], Sample=rec_sample_class())
+        s.RA, s.LA = real_adjustment_classes(vc, {'LinearRegression': ols_model_class(vc, s.models)}, s.created)
+        snames, pnames = ['s%d' % c for c in range(m)], ['p0']
+        s.S = [z3.Function('S%d' % c, I, R) for c in range(m)]
+        s.Sp = [z3.Function('Sp%d' % c, I, R) for c in range(m)]
+        s.O = [z3.Real('O%d' % c) for c in range(m)]
+        s.Op = [z3.Real('Op%d' % c) for c in range(m)]
+        s.A = [[z3.Real('A%d%d' % (u, c)) for c in range(m)] for u in range(m)]
+        s.Ai = [[z3.Real('Ai%d%d' % (u, c)) for c in range(m)] for u in range(m)]
+        s.cv = [z3.Real('c%d' % c) for c in range(m)]
+        s.th = z3.Function('theta0', I, R)
+
+        def mk(Sf, Of):
+            outputs = {nm: SArr.from_fn((lambda r, f=Sf[c]: f(r)), (n,), 'real') for c, nm in enumerate(snames)}
+            outputs['p0'] = SArr.from_fn(lambda r: s.th(r), (n,), 'real')
+            model = {nm: make_object('NodeStub', attrs=dict(observed=SArr.from_fn((lambda i, o=Of[c]: o), (1,), 'real'))) for c, nm in enumerate(snames)}
+            return sample_stub(outputs, parameter_names=list(pnames)), model
+        (s.sample1, s.model1), (s.sample2, s.model2) = mk(s.S, s.O), mk(s.Sp, s.Op)
+        s.pnames, s.snames = pnames, snames
+        vc._s = s
+        return s, (s.sample1, s.model1, s.sample2, s.model2, list(snames), list(pnames)), {}
+
+    def env(self, vc):
+        s = vc._s
+        return {'np': np_module(), 'all': vc_all, 'results': NS(Sample=s.Sample), 'RegressionAdjustment': s.RA, 'LinearAdjustment': s.LA,
+                '_get_adjustment': inline(vc, PP + '_get_adjustment'), 'adjust_posterior': inline(vc, PP + 'adjust_posterior')}
+
+    def _rowfin(self, s, Sf, Of, sign):
+        m = self.m
+        return lambda r: z3.And([FIN((Sf[c](r) - Of[c]) if sign > 0 else (Of[c] - Sf[c](r))) for c in range(m)])
+
+    def requires(self, s):
+        m = self.m
+        return [s.n >= 0,
+                # the re-expression: s' = s A + c for the simulated AND the observed summaries
+                forall_range(0, s.n, lambda r: z3.And([s.Sp[c](r) == _rsum(s.S[u](r) * s.A[u][c] for u in range(m)) + s.cv[c] for c in range(m)]), 'r'),
+                z3.And([s.Op[c] == _rsum(s.O[u] * s.A[u][c] for u in range(m)) + s.cv[c] for c in range(m)]),
+                # A is invertible
+                z3.And([_rsum(s.A[u][a] * s.Ai[a][w] for a in range(m)) == (1 if u == w else 0) for u in range(m) for w in range(m)] +
+                       [_rsum(s.Ai[u][a] * s.A[a][w] for a in range(m)) == (1 if u == w else 0) for u in range(m) for w in range(m)]),
+                # floats idealised as reals: finiteness is an uninterpreted predicate, so "a row with a non-finite entry stays non-finite and a finite
+                # row stays finite under the re-expression" (true of IEEE arithmetic up to overflow) is a hypothesis, for either sign convention
+                forall_range(0, s.n, lambda r: z3.And(self._rowfin(s, s.Sp, s.Op, 1)(r) == self._rowfin(s, s.S, s.O, 1)(r),
+                                                      self._rowfin(s, s.Sp, s.Op, -1)(r) == self._rowfin(s, s.S, s.O, -1)(r)), 'r')]
+
+    def hooks(self, s):
+        def at_dot(i):
+            def h(vc, rec):
+                mm = s.models[i]
+                Xfit = mm.fits[0][0]
+                D = vc.fresh_fn('FIT%d' % i, I, R)                  # definitional: D(c) = sum_{c' < c} Xfit[j0, c'] * coef_(c')
+                vc.assume(prefix_def(D, z3.IntVal(self.m), lambda c: Xfit.at(s.j0, c) * mm.bf(c)))
+                G = z3.And(0 <= s.j0, s.j0 < Xfit.shape[0])
+                mm.Z = dot_row_lemmas(vc, rec, G, s.j0, lambda c: Xfit.at(s.j0, c), mm.bf, z3.IntVal(self.m), D)
+                mm.D, mm.G = D, G
+            return h
+        return {('np.sum', i): at_dot(i) for i in range(2)}
+
+    def _ok(self, s, result):
+        made = s.Sample.made
+        return (len(made) == 2 and isinstance(result, tuple) and len(result) == 2 and result[0] is made[0] and result[1] is made[1] and len(s.models) == 2 and
+                _bi.all(len(mm.fits) == 1 and hasattr(mm, 'D') for mm in s.models) and len(s.created) == 2 and
+                _bi.all(isinstance(getattr(o, '_X', None), SArr) and o._X.ndim == 2 and isinstance(getattr(o, '_finite', None), list) and len(o._finite) == 1 for o in s.created) and
+                _bi.all(isinstance(mk.kw.get('outputs'), dict) and isinstance(mk.kw['outputs'].get('p0'), SArr) and mk.kw['outputs']['p0'].ndim == 1 for mk in made))
+
+    def lemmas_at_exit(self, s, result):
+        vc = cur()
+        s.ready = False
+        if not self._ok(s, result) or not _bi.all(mm.plain for mm in s.models):
+            return []
+        m, d, n, j0 = self.m, self.m + 1, s.n, s.j0
+        o1, o2 = s.created
+        X1, X2 = o1._X, o2._X
+        m1, m2 = s.models
+        (Xf1, y1), (Xf2, y2) = m1.fits[0], m2.fits[0]
+        vc.cut('both regressor matrices have one row per draw and one column per summary', z3.And(X1.shape[0] == n, X2.shape[0] == n, X1.shape[1] == m, X2.shape[1] == m))
+        vc.cut('the regressors of the second call are those of the first call times A (the shift c cancels in simulated - observed)',
+               forall_range(0, n, lambda r: z3.And([X2.at(r, c) == _rsum(X1.at(r, u) * s.A[u][c] for u in range(m)) for c in range(m)]), 'r'))
+        k1, sel1, rank1, mk1 = o1._finite[0].select()
+        k2, sel2, rank2, mk2 = o2._finite[0].select()
+        vc.cut('the two calls keep the same rows: the masks have the same contents',
+               z3.And(mk1.shape[0] == n, mk2.shape[0] == n, forall_range(0, n, lambda r: mk1.at(r) == mk2.at(r), 'r')))
+        hyp, goal = stmt_select_unique(n, lambda i: mk1.at(i), lambda i: mk2.at(i), k1, sel1, rank1, k2, sel2, rank2)
+        vc.assume(z3.Implies(hyp, goal))                                           # proved by LemmaSelectUnique
+        vc.cut('equal masks select equal rows', goal)
+        vc.cut('both regressions see the same number of rows', z3.And(m1.k == k1, m2.k == k1, Xf1.shape[0] == k1, Xf2.shape[0] == k1))
+        vc.cut('the second regression sees the same responses', forall_range(0, k1, lambda j: y2.at(j) == y1.at(j), 'j'))
+        vc.cut('... and the regressor rows of the first regression times A',
+               forall_range(0, k1, lambda j: z3.And([Xf2.at(j, c) == _rsum(Xf1.at(j, u) * s.A[u][c] for u in range(m)) for c in range(m)]), 'j'))
+        # the Gram sums of the second regression, re-read over the responses of the first (pointwise equal summands)
+        Tm, Ti = aug(s.A), aug(s.Ai)
+        vc.cut('the Gram sums of the first regression run over the k selected rows', m1.gram.defs(k1, m1.z, m1.y))
+        vc.cut('the Gram sums of the second regression run over the same k rows', m2.gram.defs(k1, m2.z, m2.y))
+        hyp, goal = stmt_gram_transform(k1, m1.z, m2.z, m1.y, m2.y, Tm, m1.gram, m2.gram)
+        vc.assume(z3.Implies(hyp, goal))                                           # proved by LemmaGramTransform
+        vc.cut("the Gram sums of the second regression are T^T G T and T^T Y, T = diag(1, A)", goal)
+        (G, Y), (Gp, Yp) = m1.gram.at(k1), m2.gram.at(k1)
+        s.fullrank = det_of(G) != 0
+        hyp, goal = stmt_affine_ols(G, Y, Gp, Yp, Tm, Ti, m1.beta, m2.beta)
+        vc.assume(z3.Implies(hyp, goal))                                           # proved by LemmaAffineOLS
+        vc.cut('full column rank: the solution of the normal equations is unique, so slope = A slope\' (and the intercepts agree)', z3.Implies(s.fullrank, goal))
+        Gj = z3.And(0 <= j0, j0 < k1)
+        hyp, goal = stmt_row_product([Xf1.at(j0, c) for c in range(m)], [Xf2.at(j0, c) for c in range(m)], s.A, m1.beta[1:], m2.beta[1:])
+        vc.assume(z3.Implies(hyp, goal))                                           # proved by LemmaAffineOLS row-product
+        vc.cut("row j: x' . slope' = x . slope", z3.Implies(z3.And(Gj, s.fullrank), goal))
+        vc.cut('row j: the two fitted-value sums agree', z3.Implies(z3.And(Gj, s.fullrank), m2.D(m) == m1.D(m)))
+        s.ready, s.Gj, s.k1 = True, Gj, k1
+        return []
+
+    def ensures(self, s, result):
+        out = [('two result objects, one adjustment object, one regression and one row mask per call', z3.BoolVal(self._ok(s, result))),
+               ('each regression is ordinary least squares with an intercept (LinearRegression constructed with its default estimator settings)',
+                z3.BoolVal(len(s.models) == 2 and _bi.all(mm.plain for mm in s.models)))]
+        if not s.has('ready') or not s.ready:
+            return out
+        r1, r2 = (mk.kw['outputs']['p0'] for mk in s.Sample.made)
+        out.append(('full column rank of [1, X_finite]: the adjusted values are unaffected by the invertible affine re-expression of the summaries (every row j)',
+                    z3.And(r1.shape[0] == s.k1, r2.shape[0] == s.k1, z3.Implies(z3.And(s.Gj, s.fullrank), r2.at(s.j0) == r1.at(s.j0)))))
+        return out
+
+    def witness(self, vc, model, ob):
+        return dict(function='adjust_posterior', affine=True, m=self.m)
+
+
 CONTRACTS = [InputVariables(1), InputVariables(3), GetFinite(1), GetFinite(2), Pairs(2), Fit(1, True), Fit(2, False), Fit(1, False, refit=True),
              Adjust1(), Adjust(2), AdjustPosterior(1, 'linear'), AdjustPosterior(2, 'instance'),
              LemmaSumExt(), LemmaZeroRow(), LemmaSignCancels(), LemmaScaleSum(), LemmaMonotoneCum(), LemmaWeightSign(True), LemmaWeightSign(False), LemmaNormalise(2), LemmaNormalise(3), FieldLemma('quotient-congruence'), FieldLemma('quotient-of-equals'), FieldLemma('weight-congruence'), FieldLemma('weight-congruence-no-priors'), FieldLemma('quotient-equality'), CompareModelsAnyM(False), CompareModelsAnyM(True), LemmaChosen(True), LemmaChosen(False), LemmaCountsAgree(), LemmaReindex((1, 0)), LemmaReindex((1, 0, 2)), LemmaReindex((0, 2, 1)), PermutedModels((1, 0), True), PermutedModels((1, 0, 2), True), PermutedModels((0, 2, 1), False),
-             CompareModels(2, False), CompareModels(2, True), CompareModels(3, False), CompareModels(3, True), CompareModels(3, True, guarded=True)]
+             CompareModels(2, False), CompareModels(2, True), CompareModels(3, False), CompareModels(3, True), CompareModels(3, True, guarded=True),
+             LemmaGramTransform(1), LemmaAffineOLS(1, 'unique-solution'), LemmaAffineOLS(1, 'row-product'), LemmaSelectUnique(), AffineReexpression(1)]
 TRUSTED_BASE = ['sklearn.linear_model.LinearRegression (assumed library, recording stub): fit(X, y) returns the object itself and sets coef_ to the '
                 'least-squares slope of y on X with an intercept, one entry per column (sanity-tested against numpy.linalg.lstsq each run, '
-                'including coef_(-X, y) = -coef_(X, y))',
+                'including coef_(-X, y) = -coef_(X, y)).  In AffineReexpression the contract is made explicit: constructed with the default estimator '
+                'settings (fit_intercept=True, positive=False), (intercept_, coef_) is A solution of the normal equations [1,X]^T [1,X] beta = [1,X]^T y '
+                'over the fitted rows (residual orthogonal to every column of [1, X]; sanity-tested); constructed otherwise nothing is known about coef_ '
+                'and the clause "ordinary least squares with an intercept" fails.  Uniqueness is NOT assumed (proved from full column rank)',
                 'numpy: stack of 1-D arrays along axis 1, isfinite elementwise (uninterpreted finiteness predicate), boolean-mask row selection = '
                 'increasing enumeration of the True entries, sum of a boolean array = their number, dot = per-row sum of products, argsort = a '
                 'permutation that sorts ascending (tie order unspecified), concatenate (for a list of symbolic length: block j of the result starts at the '
@@ -1973,9 +2427,19 @@ ASSUMPTIONS = ['A-REAL: floats are mathematical reals; non-finite values are val
                'scalar summaries and parameters (1-D outputs), observed summaries of shape (1,) as ELFI produces for one observed data set',
                'compare_models: each Sample satisfies its class invariant len(discrepancies) == n_samples; n_sim >= 1; at least one model; lists of summary / parameter '
                'names have concrete lengths 1-3 (array lengths, values, sizes, n_sim and weights are symbolic); division obligations and the permutation lemma: model lists of length 2 and 3',
+               'affine re-expression (AffineReexpression, one summary, one parameter - parameters are adjusted independently): hypotheses, not assumptions about the code: '
+               'A invertible (A A^-1 = A^-1 A = I), the observed summary is re-expressed with the simulated ones, the finite-row predicate of the re-expressed differences equals '
+               'that of the original ones, Gram determinant of [1, X_finite] != 0 (full column rank)',
                'compare_models sums to one only if sum_j p_j != 0: proved (with 0 <= probability <= 1) for non-empty samples and positive prior weights, and as an implication for arbitrary weights']
-NOT_PROVED = ['is unaffected by an invertible affine re-expression of the summaries']
-# Paper argument for the clause above (bounded stand-in checks it numerically): OLS with intercept on regressors D (k x m, full column rank after
+NOT_PROVED = ['is unaffected by an invertible affine re-expression of the summaries - for TWO OR MORE summaries (bounded stand-in only).  For ONE summary it is now '
+              'proved (AffineReexpression: two calls of the real adjust_posterior, any number of draws, non-finite rows, either sign convention, any '
+              'invertible A and shift c) under the hypotheses stated there: [1, X_finite] has full column rank (Gram determinant != 0; without it the '
+              'least-squares solution is not unique and sklearn returns the minimum-norm one, which is not equivariant) and the finite-row filter '
+              'is the same for the original and the re-expressed summaries (finiteness is uninterpreted over the idealised reals).  Blocked for d >= 2 '
+              'by the solver only: the Gram-transform induction and the row identity are generic in d, but z3/cvc5 do not decide the uniqueness step '
+              '(Cramer on the 3x3 Gram matrix with A A^-1 = I, degree-4 polynomial equalities in 23 unknowns) within the budget, with or without explicit '
+              'multiplier instances']
+# Paper argument for the clause above (the d = 1 proof follows it step by step; bounded stand-in checks it numerically for d = 1..3): OLS with intercept on regressors D (k x m, full column rank after
 # centring) gives fitted deviations D_c b = H_c y with H_c the orthogonal projector on the column space of the centred D_c.  Re-expressing the
 # summaries s -> sA + c (A invertible) maps D -> DA (the shift c cancels in simulated - observed), D_c -> D_c A, whose column space, hence H_c, is the
 # same; the slope becomes A^{-1} b and (DA)(A^{-1} b) = D b row by row (the intercept absorbs nothing because X.b is evaluated on the UNcentred D and
@@ -1996,6 +2460,14 @@ def sanity():
         ref = np.linalg.lstsq(np.column_stack([np.ones(12), X]), y, rcond=None)[0][1:]
         out.append(('sklearn LinearRegression.fit returns self', ret is mdl))
         out.append(('sklearn coef_ = least-squares slope with intercept (numpy.linalg.lstsq)', bool(mdl.coef_.shape == (3,) and np.allclose(mdl.coef_, ref, atol=1e-10))))
+        Z = np.column_stack([np.ones(12), X])
+        res = y - mdl.intercept_ - X @ mdl.coef_
+        out.append(('sklearn (intercept_, coef_) solve the normal equations: the residual is orthogonal to every column of [1, X]',
+                    bool(np.abs(Z.T @ res).max() < 1e-9 and np.abs(Z.T @ Z @ np.concatenate([[mdl.intercept_], mdl.coef_]) - Z.T @ y).max() < 1e-9)))
+        m3 = LinearRegression(fit_intercept=True, positive=False).fit(X, y)
+        out.append(('sklearn LinearRegression() defaults are fit_intercept=True, positive=False', bool(mdl.fit_intercept is True and mdl.positive is False and np.allclose(m3.coef_, mdl.coef_, atol=1e-12))))
+        msk1, msk2 = np.array([True, False, True, True]), np.array([1, 0, 1, 1], bool)
+        out.append(('boolean-mask selection depends on the contents of the mask only', bool((X[:4][msk1] == X[:4][msk2]).all())))
         out.append(('sklearn coef_ flips with the sign of the regressors', bool(np.allclose(LinearRegression().fit(-X, y).coef_, -mdl.coef_, atol=1e-10))))
     except Exception as e:
         out.append(('sklearn LinearRegression importable and fits: %s' % e, False))
